@@ -33,31 +33,27 @@ func zz04Str(name string, n int) string {
 	return s
 }
 
-// zz04Value builds a value of zz04T whose contents are symbolic; `shape` selects which
-// containers are nil / empty / populated.
+// zz04Value builds a value of zz04T; `shape` selects which part is symbolic (at most one
+// symbolic integer per shape: integer formatting forks per value) and which containers are
+// nil / empty / populated.
 func zz04Value(shape, strLen int) zz04T {
-	v := zz04T{
-		I: int8(vrt.Byte("i")),
-		Q: int8(vrt.Byte("q")),
-		B: vrt.Bool("b"),
-		A: [2]bool{vrt.Bool("a0"), vrt.Bool("a1")},
-	}
+	v := zz04T{I: -7, Q: 12, B: vrt.Bool("b"), A: [2]bool{vrt.Bool("a0"), true}}
 	switch shape {
-	case 0: // scalars and strings only
+	case 0: // every int8 value, strings
+		v.I = int8(vrt.Byte("i"))
 		v.S = zz04Str("s", strLen)
-		v.N = zz04Inner{U: vrt.Byte("u"), S: zz04Str("ns", 1)}
-	case 1: // populated containers
-		v.L = []int8{int8(vrt.Byte("l0")), 5}
-		v.M = map[string]int8{zz04Str("k", 1): int8(vrt.Byte("mv"))}
-		p := int8(vrt.Byte("p"))
+	case 1: // populated containers with symbolic key and bytes
+		v.L = []int8{3, 5}
+		v.M = map[string]int8{zz04Str("k", 1): 9}
+		p := int8(-4)
 		v.P = &p
 		v.Y = []byte{vrt.Byte("y0"), vrt.Byte("y1")}
-	case 2: // empty (non-nil) containers, nested pointer
+	case 2: // empty (non-nil) containers, nested pointer and struct with every uint8 value
 		v.L = []int8{}
 		v.M = map[string]int8{}
 		v.Y = []byte{}
 		v.PS = &zz04Inner{U: vrt.Byte("u"), S: zz04Str("ns", 1)}
-	default: // interface holding untyped values
+	case 3: // interface holding untyped values
 		switch vrt.Choice("ek", 4) {
 		case 0:
 			v.E = zz04Str("es", 1)
@@ -68,6 +64,11 @@ func zz04Value(shape, strLen int) zz04T {
 		default:
 			v.E = map[string]any{zz04Str("ek0", 1): "x"}
 		}
+	case 4: // every int8 value through the `string` tag (quoted number)
+		v.Q = int8(vrt.Byte("q"))
+	default: // symbolic elements in slice, map value, pointer target
+		v.L = []int8{int8(vrt.Byte("l0"))}
+		v.N = zz04Inner{U: 200, S: zz04Str("ns", strLen)}
 	}
 	return v
 }
